@@ -35,12 +35,42 @@ pub fn addr_of(name: &str) -> SocketAddr {
     SocketAddr::from(([127, 0, 0, 1], 10000 + node_index(name)))
 }
 
+/// Model name -> identity. "n1" is (node_id "n1", generation 0, 127.0.0.1:10001); "n1~2" is a later
+/// incarnation of the same node: same node_id and address, generation 2.
+pub fn split_name(name: &str) -> (&str, u64) {
+    match name.rsplit_once('~') {
+        Some((base, g)) => match g.parse::<u64>() {
+            Ok(g) => (base, g),
+            Err(_) => (name, 0),
+        },
+        None => (name, 0),
+    }
+}
+
 pub fn cid(name: &str) -> ChitchatId {
-    ChitchatId::new(name.to_string(), 0, addr_of(name))
+    let (base, g) = split_name(name);
+    ChitchatId::new(base.to_string(), g, addr_of(base))
 }
 
 pub fn wid(name: &str) -> WId {
-    WId { node_id: name.to_string(), generation: 0, addr: addr_of(name) }
+    let (base, g) = split_name(name);
+    WId { node_id: base.to_string(), generation: g, addr: addr_of(base) }
+}
+
+/// Identity -> model name; identities that are not of the canonical form (possible only in
+/// hostile / mutated datagrams) get a name that spells out what differs.
+pub fn name_of(node_id: &str, generation: u64, addr: &SocketAddr) -> String {
+    if *addr == addr_of(node_id) {
+        if generation == 0 { node_id.to_string() } else { format!("{node_id}~{generation}") }
+    } else {
+        format!("{node_id}~{generation}@{addr}")
+    }
+}
+pub fn name_of_cid(id: &ChitchatId) -> String {
+    name_of(&id.node_id, id.generation_id, &id.gossip_advertise_addr)
+}
+pub fn name_of_wid(id: &WId) -> String {
+    name_of(&id.node_id, id.generation, &id.addr)
 }
 
 #[derive(Clone, Debug)]
@@ -236,7 +266,7 @@ impl World {
             chitchat_id: cid(name),
             cluster_id: cfg.clusters.get(name).cloned().unwrap_or_else(|| "c".to_string()),
             gossip_interval: TICK,
-            listen_addr: addr_of(name),
+            listen_addr: cid(name).gossip_advertise_addr,
             seed_nodes: Vec::new(),
             failure_detector_config: FailureDetectorConfig {
                 phi_threshold: cfg.fd.phi,
@@ -326,12 +356,12 @@ impl World {
         let node = self.nodes.get(n).unwrap();
         let mut ns = Map::new();
         for (id, st) in node.cc.node_states() {
-            ns.insert(id.node_id.clone(), self.project_copy(st));
+            ns.insert(name_of_cid(id), self.project_copy(st));
         }
         let setmap = |it: &mut dyn Iterator<Item = &ChitchatId>| {
             let mut m = Map::new();
             for id in it {
-                m.insert(id.node_id.clone(), Value::Bool(true));
+                m.insert(name_of_cid(id), Value::Bool(true));
             }
             Value::Object(m)
         };
@@ -340,7 +370,7 @@ impl World {
         let sched = setmap(&mut node.cc.scheduled_for_deletion_nodes());
         let mut w = Map::new();
         for (id, st) in node.watch_rx.borrow().iter() {
-            w.insert(id.node_id.clone(), json!(st.max_version()));
+            w.insert(name_of_cid(id), json!(st.max_version()));
         }
         json!({"ns": ns, "live": live, "dead": dead, "sched": sched, "watch": w,
                "wseq": node.wseq, "cb": node.cb.load(Ordering::SeqCst)})
@@ -364,7 +394,7 @@ impl World {
     pub fn model_of_digest(&self, d: &[WNodeDigest]) -> Value {
         let mut m = Map::new();
         for nd in d {
-            m.insert(nd.id.node_id.clone(), json!({"hb": nd.hb, "gc": nd.gc, "max": nd.max}));
+            m.insert(name_of_wid(&nd.id), json!({"hb": nd.hb, "gc": nd.gc, "max": nd.max}));
         }
         Value::Object(m)
     }
@@ -384,7 +414,7 @@ impl World {
                         m.insert(k, v);
                     }
                     cur = Some((
-                        id.node_id.clone(),
+                        name_of_wid(id),
                         json!({"from": from, "gc": gc, "max": 0, "kvs": []}),
                     ));
                 }
